@@ -28,9 +28,10 @@ from props import c14_worker as W
 NONGP = ['random', 'quasi_random', 'grid', 'eagle', 'nsga2']
 LABEL = {'random': 'RandomDesigner', 'quasi_random': 'QuasiRandomDesigner', 'grid': 'GridSearchDesigner',
          'eagle': 'EagleStrategyDesigner', 'nsga2': 'NSGA2Designer', 'gp_bandit': 'VizierGPBandit',
-         'gp_ucb_pe': 'VizierGPUCBPEBandit'}
+         'gp_ucb_pe': 'VizierGPUCBPEBandit', 'scalarizing': 'GaussianScalarizingEnsemble'}
 # tables a designer's behaviour depends on besides its own (for the model's verdict)
-DEPENDS = {'nsga2': ['numpy_populations.UniformRandomSampler', 'numpy_populations.LinfMutation',
+DEPENDS = {'scalarizing': ['scalarizing_designer.ScalarizingDesigner', 'random.RandomDesigner'],
+           'nsga2': ['numpy_populations.UniformRandomSampler', 'numpy_populations.LinfMutation',
                      'templates.CanonicalEvolutionDesigner'],
            'eagle': ['eagle_strategy_utils.EagleStrategyUtils', 'eagle_strategy_utils.FireflyPool',
                      'random_sample.functions', 'quasi_random.QuasiRandomDesigner'],
@@ -237,6 +238,15 @@ def gen_cases(c, level, focus=None):
     for s in seeds[:2 + level]:
       cases.append(benchmark_case(d, s, rng.choice(probs), rng.randrange(0, 1000)))
     cases.append(benchmark_case(d, seeds[-1], BBOB_PROBLEM, rng.randrange(0, 1000), 'bbob'))
+    if d in ('random', 'eagle') or level > 0:
+      # seeded wrapper experimenters of the benchmark library in the loop
+      cases.append(benchmark_case(d, seeds[0], BBOB_PROBLEM, rng.randrange(0, 1000), 'hashinf'))
+      cases.append(benchmark_case(d, seeds[-1], BBOB_PROBLEM, rng.randrange(0, 1000), 'factory'))
+  # the seeded scalarizing ensemble (two objectives): what the seed determines directly (the members' weights),
+  # for seed 0 in particular
+  mo = gen_problem(rng, n_metrics=2)
+  for s in seeds[:2]:
+    cases.append(designer_case('scalarizing', s, mo, [], {'weights_only': True}))
   gp_seed = rng.randrange(1, 2 ** 31 - 1)
   if level == 0:
     cases.append(designer_case('gp_bandit', gp_seed, GP_PROBLEM, [], {'small': True}))
